@@ -93,6 +93,9 @@ func c12Run(c *h.Ctx) {
 			c.Count("length_form_boundary_cases", 1)
 		}
 		c12One(c, id, cs, sr)
+		if i%4 == 3 && c12Signed(cs.Signer) {
+			c12Reuse(c, id+"-reuse", cs, br)
+		}
 	}
 }
 
@@ -136,6 +139,58 @@ func c12Boundary(cs *pkt.Case, r *rand.Rand) {
 		b := make([]byte, nl)
 		r.Read(b)
 		cs.Payload = [][]byte{b[:nl/2], b[nl/2:]}
+	}
+}
+
+// c12Reuse signs several packets with ONE signer object (what an application does for the
+// segments of an object) and only then serialises and verifies them: a packet must keep verifying
+// after the signer has been used again.
+func c12Reuse(c *h.Ctx, id string, cs *pkt.Case, r *rand.Rand) {
+	c.Eval(1)
+	k := 2 + r.Intn(3)
+	signer := cs.MakeSigner()
+	var built []*pkt.Built
+	var first [][]byte
+	desc := cs.Describe()
+	desc["packets_signed_with_one_signer"] = k
+	for j := 0; j < k; j++ {
+		cj := *cs
+		cj.Name = append(cs.Name.Clone(), enc.NewSequenceNumComponent(uint64(j)))
+		pl := make([]byte, r.Intn(60))
+		r.Read(pl)
+		cj.Payload = [][]byte{pl}
+		var b *pkt.Built
+		var err error
+		if pi := h.Guard(func() { b, err = cj.BuildWith(signer) }); pi != nil {
+			c.Violation("C12:panic:build:"+pi.Frame+":"+pi.Class, id, "packet construction panicked: "+pi.Value, desc)
+			return
+		}
+		if err != nil {
+			return // refused combinations are reported by the single-packet path
+		}
+		built = append(built, b)
+		first = append(first, b.Bytes)
+	}
+	c.Count("signer_reuse_batches", 1)
+	for j, b := range built {
+		now := b.Wire.Join()
+		if !bytes.Equal(now, first[j]) {
+			desc["packet_index"] = j
+			desc["wire_at_build"] = h.HexFull(first[j][:min(len(first[j]), 400)])
+			desc["wire_after_later_signing"] = h.HexFull(now[:min(len(now), 400)])
+			c.Violation("C12:packet-changes-after-signer-reuse:"+cs.Kind+":"+cs.Signer, id,
+				fmt.Sprintf("packet %d of %d built with one signer object changed after the signer signed later packets", j, k), desc)
+			return
+		}
+		lay, werr := pkt.Analyse(now)
+		if werr != nil || !lay.HasSig {
+			continue
+		}
+		if !c12Independent(cs.Signer, lay.Signed, lay.SigValue) {
+			desc["packet_index"] = j
+			c.Violation("C12:independent-verify-fails:"+cs.Kind+":"+cs.Signer, id, "signature value of a packet built with a reused signer object does not verify (harness crypto)", desc)
+			return
+		}
 	}
 }
 
